@@ -161,3 +161,84 @@ def const_values(fi, P):
         elif isinstance(n, ast.Name) and n.id in modconst and isinstance(n.ctx, ast.Load):
             out.append(modconst[n.id])
     return out
+
+
+def check_forwarder(chk, rule, qual, callee_qual, roles=None, allow_const=True, self_map=None):
+    """`qual` must be a pure forwarder: `return callee(<bare parameters>)`, each bound to the callee parameter of the
+    same role (same name unless `roles` = {callee_param: caller_param} says otherwise); nothing is rescaled on the way."""
+    from .program import local_imports_of
+    P = chk.P
+    fi, callee = P.fn(qual), P.fn(callee_qual)
+    chk.files.add(fi.module.relpath)
+    construct = "%s:%s -> %s" % (fi.module.relpath, qual.split(".", 1)[1], callee.name)
+    roles = roles or {}
+    rets = [n for n in ast.walk(fi.node) if isinstance(n, ast.Return)]
+    calls = []
+    li = local_imports_of(fi)
+    for n in ast.walk(fi.node):
+        if isinstance(n, ast.Call):
+            r = P.resolve_expr(fi.module, n.func, li)
+            if r and r[0] == "func" and r[1] is callee:
+                calls.append(n)
+            elif isinstance(n.func, ast.Attribute) and isinstance(n.func.value, ast.Name) and fi.cls is not None and \
+                    fi.params and n.func.value.id == fi.params[0] and callee.cls is not None and n.func.attr == callee.name:
+                calls.append(n)
+    if len(calls) != 1:
+        chk.ob(rule, construct, "exactly one call of the forwarded function", False, derived="%d calls" % len(calls), loc=fi.loc())
+        return
+    call = calls[0]
+    returned = any(r.value is call for r in rets) or (not rets and True)
+    if rets and not returned:
+        # result may be bound to names and returned unchanged (tuple unpack + same order)
+        returned = _returned_unchanged(fi, call)
+    cparams = list(callee.params)
+    if callee.cls is not None:
+        cparams = cparams[1:]
+    binding = {}
+    for i, a in enumerate(call.args):
+        if i < len(cparams):
+            binding[cparams[i]] = a
+    for k in call.keywords:
+        if k.arg:
+            binding[k.arg] = k.value
+    bad = []
+    used = set()
+    for cp, expr in binding.items():
+        if isinstance(expr, ast.Name) and expr.id in fi.params:
+            want = roles.get(cp, cp)
+            used.add(expr.id)
+            if expr.id != want:
+                bad.append("%s <- %s (role %s expected)" % (cp, expr.id, want))
+        elif isinstance(expr, ast.Constant) and allow_const:
+            continue
+        elif self_map and cp in self_map and ast.unparse(expr) == self_map[cp]:
+            continue
+        else:
+            bad.append("%s <- %s (not a bare parameter)" % (cp, ast.unparse(expr)))
+    mine = [p for p in fi.params if not (fi.cls is not None and p == fi.params[0])]
+    missing = [p for p in mine if p not in used and roles.get("__ignore__", ()) is not None and p not in roles.get("__ignore__", ())]
+    ok = not bad and not missing and returned
+    chk.ob(rule, construct, "pure role-correct forwarder", ok,
+           derived="; ".join(bad) or ("parameters not forwarded: %s" % missing if missing else
+                                      ("result not returned unchanged" if not returned else "all parameters forwarded by role")),
+           loc=fi.loc(call), stmt=" ".join(ast.unparse(call).split()))
+
+
+def _returned_unchanged(fi, call):
+    names = None
+    for st in ast.walk(fi.node):
+        if isinstance(st, ast.Assign) and st.value is call and len(st.targets) == 1:
+            t = st.targets[0]
+            if isinstance(t, ast.Name):
+                names = [t.id]
+            elif isinstance(t, ast.Tuple) and all(isinstance(e, ast.Name) for e in t.elts):
+                names = [e.id for e in t.elts]
+    if names is None:
+        return False
+    for st in ast.walk(fi.node):
+        if isinstance(st, ast.Return) and st.value is not None:
+            v = st.value
+            got = [v.id] if isinstance(v, ast.Name) else ([e.id for e in v.elts] if isinstance(v, ast.Tuple) and all(isinstance(e, ast.Name) for e in v.elts) else None)
+            if got == names:
+                return True
+    return False
